@@ -45,6 +45,10 @@ def stimuli():
     out.append(("appdisc_eof",))
     out.append(("second_connect",))
     out.append(("wrong_trid_fail",))
+    # a ResendRequest is being answered (parked in the application's should_replay hook / in drain() under
+    # back-pressure) when another task (application, watchdog) disconnects; then the parked answer continues
+    out.append(("rr_parked_disc", "hook"))
+    out.append(("rr_parked_disc", "drain"))
     # an integrity failure whose Logout cannot be written: the transport fails at that very drain()
     for cls in ("app", "hb"):
         for d in ("bad49", "no34", "low"):
@@ -226,6 +230,55 @@ def apply(w, mon, stim, rootname, role):
             return ("eof_not_disconnected", f"{b['state']}:wrong_testreqid+transport_failure", "a closed transport leaves the connection disconnected", det)
         if a["ndisc"] - b["ndisc"] != 1:
             return ("disconnect_not_reported_once", f"{b['state']}:wrong_testreqid+transport_failure", "reports the disconnect exactly once", det)
+        return None
+    elif kind == "rr_parked_disc":
+        if w.reader is None or w.writer is None or b["state"] != "ACTIVE":
+            return "skip"
+        from asyncfix.connection import ConnectionState
+        r0 = w.call(c.send_msg(FIXMessage("D", {11: "forreplay", 55: "X"})))
+        if r0[0] == "exc":
+            return "skip"
+        b = snap(w)
+        parked = []
+
+        async def gate(conn, name):
+            if name == "should_replay" and stim[1] == "hook" and not parked:
+                f = w.loop.create_future()
+                parked.append(f)
+                await f
+
+        c.gates = gate
+        if stim[1] == "drain":
+            w.writer.pause()
+        old_writer = w.writer
+        w.reader.feed(refs.frame("2", num_in(c), w.T, w.S, [(7, 1), (16, 0)]))
+        w.run()
+        mid = c.connection_state.name
+        t = w.loop.create_task(c.disconnect(ConnectionState.DISCONNECTED_BROKEN_CONN))
+        w.run()
+        for f in parked:
+            if not f.done():
+                f.set_result(None)
+        if stim[1] == "drain" and old_writer.paused:
+            old_writer.resume()
+        w.run()
+        c.gates = None
+        nframes_dead = len(old_writer.attempts)
+        a = snap(w)
+        # further input and time after the disconnect: silence
+        if w.reader is not None and not w.reader.eof:
+            w.reader.feed(refs.frame("D", num_in(c), w.T, w.S, [(11, "late")]))
+            w.run()
+        w.advance(2)
+        a2 = snap(w)
+        det = {"root": [role, rootname], "stimulus": stim, "before": b, "state_while_parked": mid, "after": a, "later": a2}
+        cause = f"resend_reply_parked_in_{stim[1]}+disconnect_by_other_task"
+        if not a["dead"] or not a2["dead"]:
+            return ("disconnect_undone", cause, "after any disconnect the connection emits no further frames or message callbacks", det)
+        if a2["nmsg"] != b["nmsg"] or len(old_writer.attempts) != nframes_dead:
+            return ("active_after_disconnect", cause, "after any disconnect the connection emits no further frames or message callbacks", det)
+        if a2["ndisc"] - b["ndisc"] != 1:
+            return ("disconnect_not_reported_once", cause, "reports the disconnect exactly once", det)
         return None
     elif kind == "second_connect":
         # a second transport connection arrives at a single-connection acceptor while the first one is alive
